@@ -1183,6 +1183,15 @@ int32 matrixDtlsGetOutdata(ssl_t *ssl, unsigned char **buf)
            The state is always the handshake message you expect to be receiving
            from the peer.
          */
+        /* If we've had a protocol error or closure, the flight must not be
+           rebuilt (and re-encrypted): the session cannot be used anymore */
+        if (ssl->flags & SSL_FLAGS_ERROR || ssl->flags & SSL_FLAGS_CLOSED)
+        {
+            psTraceErrr("Can't resend a flight on closed/error-flagged sess\n");
+            *buf = NULL;
+            return PS_PROTOCOL_FAIL;
+        }
+
         safeToResend = canResend(ssl);
 
         if (safeToResend == 0)
